@@ -30,7 +30,7 @@ def topics_bad(ts: ListSI) -> bool:
 @contract('mqtt.client.pubsubs.MQTTProtocol.doSubscribe', props=['C07', 'C17', 'C20', 'C18', 'C02'])
 def _(self: Ref['mqtt.client.pubsubs.MQTTProtocol'], request: Ref['mqtt.pdu.SUBSCRIBE']) -> Ref['Deferred']:
     requires(is_obj(self.addr))
-    requires(live(self))
+    requires(live(self) and isa(self._pingReq, 'mqtt.pdu.PINGREQ'))
     requires(is_int(request.qos) and is_none(request.msgId) and is_none(request.encoded))
     requires(is_unset(request.alarm) and is_unset(request.deferred) and is_unset(request.interval))
     requires(sub_shape_ok(request) or is_int(request.topics) or is_none(request.topics))
@@ -39,7 +39,8 @@ def _(self: Ref['mqtt.client.pubsubs.MQTTProtocol'], request: Ref['mqtt.pdu.SUBS
     rejected = full or not sub_shape_ok(request) or topics_bad(ts)
     modifies(all_but(KEEP_API))
     ensures(live(self))
-    ensures(is_bool(result.d_fired))
+    ensures(is_bool(result.d_fired) and not (result.d_val == exc('MQTTStateError')))
+    ensures(unchanged(self._pingReq.alarm))
     # window full: MQTTWindowError, nothing written
     ensures(implies(full, result.d_fired and not result.d_ok and is_exc(result.d_val) and out(self) == old(out(self))))
     # any other rejection: nothing written, nothing registered
@@ -72,7 +73,7 @@ def strs_bad(ts: ListStr) -> bool:
 @contract('mqtt.client.pubsubs.MQTTProtocol.doUnsubscribe', props=['C07', 'C17', 'C20', 'C18', 'C02'])
 def _(self: Ref['mqtt.client.pubsubs.MQTTProtocol'], request: Ref['mqtt.pdu.UNSUBSCRIBE']) -> Ref['Deferred']:
     requires(is_obj(self.addr))
-    requires(live(self))
+    requires(live(self) and isa(self._pingReq, 'mqtt.pdu.PINGREQ'))
     requires(is_none(request.msgId) and is_none(request.encoded))
     requires(is_unset(request.alarm) and is_unset(request.deferred) and is_unset(request.interval))
     requires(is_str(request.topics) or is_list_str(request.topics) or is_int(request.topics) or is_none(request.topics) or is_pair_si(request.topics))
@@ -82,7 +83,8 @@ def _(self: Ref['mqtt.client.pubsubs.MQTTProtocol'], request: Ref['mqtt.pdu.UNSU
     rejected = full or not shape or strs_bad(ts)
     modifies(all_but(KEEP_API))
     ensures(live(self))
-    ensures(is_bool(result.d_fired))
+    ensures(is_bool(result.d_fired) and not (result.d_val == exc('MQTTStateError')))
+    ensures(unchanged(self._pingReq.alarm))
     ensures(implies(full, result.d_fired and not result.d_ok and is_exc(result.d_val) and out(self) == old(out(self))))
     ensures(implies(rejected, result.d_fired and not result.d_ok and out(self) == old(out(self))
                     and forall(lambda k: contains(U(self), k) == old(contains(U(self), k)))))
